@@ -110,10 +110,32 @@
     before 5a5de9a, un-evicting a refused eviction with what the pod object
     carried at commit time, put the pod back under the GPU groups of an abandoned
     nomination ([C13_erasure_refused_eviction_before_repair]; found by the erasure
-    clause of the monitor on the real Statement, repaired). *)
+    clause of the monitor on the real Statement, repaired).
+
+    SOLVER LEVEL (section 7).  Statement can be correct and its user not: the by-pod solver
+    (actions/common/solvers/by_pod_solver.go) tries the nodes of the latest potential victim
+    job one at a time, each attempt = [checkpoint; evict the potential victims that touch the
+    node; simulate; on failure roll back to the checkpoint]; a scenario without solution is
+    discarded.  Model/SolverLoop.v is that loop on top of the statement machine, with the
+    simulation as an oracle (session -> placing commands, success).  For ALL sessions, ALL
+    attempt lists and ALL oracles (issuing well-formed commands): the erased program of what
+    the loop issues is the recorded victims' evictions followed by the commands of the
+    successful attempt alone - or nothing ([C13_solver_loop_erases_to_successful_attempt]);
+    the session after the loop is related to the one reached by the successful attempt alone,
+    with the same operation log and call counter ([C13_solver_failed_attempts_leave_no_trace]),
+    Commit emits the same calls ([C13_solver_commit_emits_successful_attempt_only]); when no
+    attempt succeeds the final Discard leaves a session related to the one the statement began
+    in ([C13_solver_no_solution_restores]).  The loop with the checkpoint taken AFTER the
+    evictions (the seeded change C13-4) is refuted on the world of its README: the eviction
+    of a pod that only the abandoned attempt touched stays in the log and is committed
+    ([C13_solver_checkpoint_after_evictions_refuted], [..._commits_abandoned_eviction]).
+    The monitor evaluates the same statement on the RESULT of the real solver (Run/C13.v
+    [solve_monitor]: Evict calls = reported victims, session after Solve = the reported
+    scenario applied by hand). *)
 From Coq Require Import List ZArith PArith Bool.
 From KaiV Require Import Model.Res Model.Status Model.AMap Model.Node Model.NodeSpec Model.Session Model.SessionSpec
-  Model.SessionErase Model.SessionClaims Proofs.Node Proofs.Session Proofs.SessionLog Proofs.SessionErase Proofs.SessionClaims.
+  Model.SessionErase Model.SessionClaims Model.SolverLoop Proofs.Node Proofs.Session Proofs.SessionLog Proofs.SessionErase
+  Proofs.SessionClaims Proofs.SolverLoop.
 Import ListNotations.
 
 (** ** 1. Rollback to a checkpoint *)
@@ -711,3 +733,102 @@ Theorem C13_claims_nonvacuous :
   /\ claim_of (crun VS false w_orc nofail_c w_v (prog ++ [Rollback 0])) 13 = Some (None, []).
 Proof. exact claims_nonvacuous. Qed.
 Print Assumptions C13_claims_nonvacuous.
+
+(** ** 7. Solver level: the attempt loop of the by-pod solver (Model/SolverLoop.v) *)
+
+(** whatever the attempts and the simulations (placing commands only), the erased program of what the solver issues
+    after the recorded victims' evictions [pre] is [pre] followed by the commands of the successful attempt - or
+    by nothing when no attempt succeeds: every failed attempt is erased as a whole *)
+Theorem C13_solver_loop_erases_to_successful_attempt :
+  forall (fails : nat -> bool) (S : sess) (pre : list cmd) (atts : list attempt),
+    forallb plain_cmd pre = true -> Forall plain_oracle atts ->
+    erase fails S (pre ++ fst (loop fails (Session.run fails S pre) atts))
+    = pre ++ winner (snd (loop fails (Session.run fails S pre) atts)).
+Proof. exact loop_erases_to_winner. Qed.
+Print Assumptions C13_solver_loop_erases_to_successful_attempt.
+
+(** for all sessions, attempt lists, placement oracles and failure oracles: after the loop (a well-formed open
+    statement, whatever command [c] follows) the session is related to the one obtained by running ONLY the
+    successful attempt (or only [pre] when none succeeds) - the relation of [C13_rollback_restores_partial] -, the
+    statement's operation log is exactly the log of that run, and so is the call counter *)
+Theorem C13_solver_failed_attempts_leave_no_trace :
+  forall (fails : nat -> bool) (S : sess) (pre : list cmd) (atts : list attempt) (c : cmd),
+    s_log S = [] -> s_stuck S = false ->
+    forallb plain_cmd pre = true -> Forall plain_oracle atts ->
+    let p := fst (loop fails (Session.run fails S pre) atts) in
+    let w := winner (snd (loop fails (Session.run fails S pre) atts)) in
+    wf_from any_task fails [] false S ((pre ++ p) ++ [c]) = true ->
+    srel neq (Session.run fails S (pre ++ p)) (Session.run fails S (pre ++ w))
+    /\ s_log (Session.run fails S (pre ++ p)) = s_log (Session.run fails S (pre ++ w))
+    /\ s_ncalls (Session.run fails S (pre ++ p)) = s_ncalls (Session.run fails S (pre ++ w)).
+Proof. exact loop_failed_attempts_leave_no_trace. Qed.
+Print Assumptions C13_solver_failed_attempts_leave_no_trace.
+
+(** ... and Commit of the statement the solver returns emits, call for call, what Commit emits after the successful
+    attempt alone: nothing of an abandoned attempt reaches the cluster (sessions keyed by pod id) *)
+Theorem C13_solver_commit_emits_successful_attempt_only :
+  forall (fails : nat -> bool) (S : sess) (pre : list cmd) (atts : list attempt),
+    keyed_b S = true -> s_log S = [] -> s_stuck S = false ->
+    forallb plain_cmd pre = true -> Forall plain_oracle atts ->
+    let p := fst (loop fails (Session.run fails S pre) atts) in
+    let w := winner (snd (loop fails (Session.run fails S pre) atts)) in
+    wf_from any_task fails [] false S ((pre ++ p) ++ [Commit]) = true ->
+    snd (step fails (Session.run fails S (pre ++ p)) Commit) = snd (step fails (Session.run fails S (pre ++ w)) Commit).
+Proof. exact loop_commit_calls. Qed.
+Print Assumptions C13_solver_commit_emits_successful_attempt_only.
+
+(** [byPodSolver.solve] without solution (recorded victims, every attempt failed, Discard): the session is related to
+    the one the statement began in and the statement is empty *)
+Theorem C13_solver_no_solution_restores :
+  forall (fails : nat -> bool) (S : sess) (recorded : list positive) (atts : list attempt) (c : cmd),
+    s_log S = [] -> s_stuck S = false -> Forall plain_oracle atts ->
+    snd (solve fails S recorded atts) = None ->
+    wf_from any_task fails [] false S (fst (solve fails S recorded atts) ++ [c]) = true ->
+    srel neq (Session.run fails S (fst (solve fails S recorded atts))) S
+    /\ s_log (Session.run fails S (fst (solve fails S recorded atts))) = [].
+Proof. exact solve_unsolved_restores. Qed.
+Print Assumptions C13_solver_no_solution_restores.
+
+(** non-vacuity, on the world of seeded/C13-4/README.md (nodes 1, 2 = node0, node1; pods 4 blocker, 6 small0, 8 small1,
+    10 / 11 the gang, 13 the pending pod; the initial session is the one the driver prints for corpus world V1):
+    the attempt on node0 (victims 6, 10, 11) fails, the attempt on node1 (victims 8, 10, 11) succeeds; the loop's
+    program meets the hypotheses above; the log after it holds the evictions of 8, 10, 11 only and Commit evicts
+    exactly the victims of the successful attempt *)
+Theorem C13_solver_readme_world :
+  keyed_b w13_init = true /\ s_log w13_init = [] /\ s_stuck w13_init = false
+  /\ wf_from any_task nofail [] false w13_init (w13_prog ++ [Commit]) = true
+  /\ w13_prog = [Checkpoint; Evict 6; Evict 10; Evict 11; Rollback 0; Checkpoint; Evict 8; Evict 10; Evict 11;
+                 Pipeline 13 2 None false; Pipeline 8 1 None false]
+  /\ snd (loop nofail w13_init w13_atts) = Some [Evict 8; Evict 10; Evict 11; Pipeline 13 2 None false; Pipeline 8 1 None false]
+  /\ evict_entries (s_log (Session.run nofail w13_init w13_prog)) = [8; 10; 11]%positive
+  /\ snd (step nofail (Session.run nofail w13_init w13_prog) Commit)
+     = [AEvict 8; AEvict 10; AEvict 11; APipe 13 (Some 2%positive) []; APipe 8 (Some 1%positive) []]
+  /\ winner_victims nofail w13_init w13_atts = [8; 10; 11]%positive.
+Proof. exact solver_loop_readme_world. Qed.
+Print Assumptions C13_solver_readme_world.
+
+(** the loop with the checkpoint taken AFTER the attempt's evictions ([loop_late], the seeded change C13-4; not the
+    code): the statement "failed attempts leave no trace" (its log clause, same hypotheses) is false for it ... *)
+Theorem C13_solver_checkpoint_after_evictions_refuted :
+  failed_attempts_leave_no_trace_for loop /\ ~ failed_attempts_leave_no_trace_for loop_late.
+Proof. exact (conj failed_attempts_leave_no_trace_code checkpoint_after_evictions_refuted). Qed.
+Print Assumptions C13_solver_checkpoint_after_evictions_refuted.
+
+(** ... on the README world: a well-formed statement, the rollback of the abandoned attempt on node0 undoes nothing,
+    the eviction of pod 6 (small0) stays in the log, pod 6 is Releasing in the session the solver returns, Commit
+    sends its eviction to the cluster (evictions 6, 11, 8), and pod 6 is not among the victims of the successful
+    attempt (8, 10, 11) *)
+Theorem C13_solver_checkpoint_after_evictions_commits_abandoned_eviction :
+  wf_from any_task nofail [] false w13_init (w13_prog_late ++ [Commit]) = true
+  /\ w13_prog_late = [Evict 6; Evict 10; Evict 11; Checkpoint; Rollback 3; Evict 8; Evict 10; Evict 11; Checkpoint;
+                      Pipeline 13 2 None false; Pipeline 10 1 None false; Pipeline 11 1 None false]
+  /\ existsb (Pos.eqb 6) (evict_entries (s_log (Session.run nofail w13_init w13_prog_late))) = true
+  /\ evicted_by (snd (step nofail (Session.run nofail w13_init w13_prog_late) Commit)) = [6; 11; 8]%positive
+  /\ winner_victims_late nofail w13_init w13_atts_late = [8; 10; 11]%positive
+  /\ existsb (Pos.eqb 6) (winner_victims_late nofail w13_init w13_atts_late) = false
+  /\ (match get_pod (Session.run nofail w13_init w13_prog_late) 6 with
+      | Some p => p_status p
+      | None => Pending
+      end) = Releasing.
+Proof. exact solver_loop_late_readme_world. Qed.
+Print Assumptions C13_solver_checkpoint_after_evictions_commits_abandoned_eviction.
